@@ -182,8 +182,9 @@ where
             err @ Err(_) => err,
         };
 
-        cleanup(ctx.state_mut(), key_ident, old_key);
+        // restore in reverse order of insertion, so that `|x, x|` also ends with the outer `x`
         cleanup(ctx.state_mut(), value_ident, old_value);
+        cleanup(ctx.state_mut(), key_ident, old_key);
 
         result
     }
@@ -214,8 +215,9 @@ where
             err @ Err(_) => err,
         };
 
-        cleanup(ctx.state_mut(), index_ident, old_index);
+        // restore in reverse order of insertion, so that `|x, x|` also ends with the outer `x`
         cleanup(ctx.state_mut(), value_ident, old_value);
+        cleanup(ctx.state_mut(), index_ident, old_index);
 
         result
     }
